@@ -122,6 +122,12 @@ def scenarios(tier):
             sc = two(dll, 2, 3)
             sc['msgs'] = [msg(0x10, 'p2p', 0x20, seg * 3 - 1), msg(0x20, 'p2p', 0x10, seg * 2 + 1)]
             out.append(sc)
+        # two outgoing sessions of one stack in the same pass (to two different stacks), one of them with another window
+        sc = {'dll': dll, 'base_lat': 1e-4,
+              'stacks': [{'name': 'A', 'cas': [0x10, 0x11], 'win': 2}, {'name': 'B', 'cas': [0x20], 'win': 1},
+                         {'name': 'C', 'cas': [0x30], 'win': 255}],
+              'msgs': [msg(0x10, 'p2p', 0x20, seg * 3 - 2), msg(0x11, 'p2p', 0x30, seg * 2 - 1)]}
+        out.append(sc)
         # pre-emption while timeouts are being served: the same transfers with every single frame lost
         for (wa, wb) in (((1, 1),) if quick else ((1, 1), (2, 2), (255, 255))):
             npk = 2 if quick else 3
@@ -157,7 +163,7 @@ def run(tier, seed):
     items = []
     nline = {}
     for sc in scenarios(tier):
-        for stack in (0, 1):
+        for stack in range(len(sc['stacks']) if len(sc['stacks']) == 2 else 1):
             n1 = run_one(sc, stack, [], seed)[0]
             n2 = run_one(sc, stack, [], seed)[0]
             if n1 != n2:
